@@ -90,5 +90,48 @@ patch("runtime/alg.go", [
 		hashkey[i] = uintptr(0x9e3779b97f4a7c15 * uint64(i+1))
 	}"""),
 ])
+# sync.Pool: per-P caches and GC victim handling make "which object does Get return" depend on
+# the P a goroutine happens to run on and on collector timing; under the simulator a pool is a
+# mutex-protected LIFO list (the repository's pooled buffers are not cleared before reuse, so the
+# identity of the reused object is visible in the bytes sent)
+patch("sync/pool.go", [
+    ("""	New func() any
+}""", """	New func() any
+
+	verifMu   Mutex
+	verifList []any
+}
+
+// verifPools is switched on by the deterministic simulator (via linkname).
+var verifPools bool"""),
+    ("""func (p *Pool) Put(x any) {
+	if x == nil {
+		return
+	}""", """func (p *Pool) Put(x any) {
+	if x == nil {
+		return
+	}
+	if verifPools {
+		p.verifMu.Lock()
+		p.verifList = append(p.verifList, x)
+		p.verifMu.Unlock()
+		return
+	}"""),
+    ("""func (p *Pool) Get() any {""", """func (p *Pool) Get() any {
+	if verifPools {
+		var x any
+		p.verifMu.Lock()
+		if n := len(p.verifList); n > 0 {
+			x = p.verifList[n-1]
+			p.verifList[n-1] = nil
+			p.verifList = p.verifList[:n-1]
+		}
+		p.verifMu.Unlock()
+		if x == nil && p.New != nil {
+			x = p.New()
+		}
+		return x
+	}"""),
+])
 json.dump({"Replace": replace}, open(os.path.join(out, "overlay.json"), "w"), indent=1)
 print("overlay: %d toolchain files patched" % len(replace))
